@@ -1113,7 +1113,9 @@ def _k1_routing(ctx: Context) -> int:
     else:
         mt = strip_sites(T.of(cfg, pn, b[md_idx]))
         want = ("call", ("attr", mt, "get"), (("const", SPEC.APPLE_COMPANY_ID),), ())
-        _judge(ck, "C18.K1", all(x == want for x in bases), [mt] + bases, "_device_detected: the type test reads the same manufacturer data that is parsed",
+        from ._pairing import get_as_item as _gi  # d.get(K) and d[K] (behind a presence test / KeyError handler) are the same item
+
+        _judge(ck, "C18.K1", all(_gi(x) == _gi(want) for x in bases), [mt] + bases, "_device_detected: the type test reads the same manufacturer data that is parsed",
                f"{fk}:type-test-buffer", f"_device_detected: type test on {show(bases[0], 100)}, parser is given {show(mt, 100)}", ctx.loc(f, pn))
     # parse errors are ignored
     bad = [(d, e) for (d, l, e) in pn.succ if l == "x" and cfg.nodes[d].kind != "handler"]
